@@ -40,7 +40,12 @@ def to_hy(t, ind=0):
         # compiler renames the value's temporary to the target), setx, a for-loop target
         how, n, v = t[1], t[2], t[3]
         return {"setv-of-try": f"(setv {n} (try {v} (finally None)))", "setx": f"(do (setx {n} {v}) None)",
-                "for": f"(for [{n} [{v}]] None)"}[how]
+                "for": f"(for [{n} [{v}]] None)",
+                # further values that leave their result in a temporary which the compiler renames to the target
+                "setv-of-if": f"(setv {n} (if True (do (setv hv_tmp {v}) hv_tmp) 0))",
+                "setv-of-match": f"(setv {n} (match 1 1 (do (setv hv_tmp {v}) hv_tmp) _ 0))",
+                "setv-of-fn": f"(setv {n} ((fn [] (setv hv_tmp {v}) hv_tmp)))",
+                "setv-of-def-fn": f"(do (setv {n} (fn [] (setv hv_tmp {v}) hv_tmp)) (setv {n} ({n})))"}[how]
     if k == "log":
         return f'(LOG "{t[1]}" (fn [] {t[1]}))'
     if k == "log2":
